@@ -1,13 +1,17 @@
 import KrillModel.Drivers.Queue
+import KrillModel.Drivers.Fault
 import KrillModel.Drivers.Http
 import KrillModel.Drivers.Pubd
 import KrillModel.Drivers.AggStore
+import KrillModel.Drivers.Pure
 
 def main (args : List String) : IO UInt32 := do
   match args with
   | ["queue"] => KM.Drv.Queue.main; return 0
+  | ["fault"] => KM.Drv.Fault.main; return 0
   | ["http"] => KM.Drv.Http.main; return 0
   | ["pubd"] => KM.Drv.Pubd.main ""; return 0
   | ["pubd", prop] => KM.Drv.Pubd.main prop; return 0
   | ["aggstore"] => KM.Drv.AggStore.main; return 0
+  | ["pure"] => KM.Drv.Pure.main; return 0
   | _ => IO.eprintln "usage: kmodel <stream>"; return 2
